@@ -215,7 +215,31 @@ def match_consumption(body, uses, tr, local, b, discr_dest, chain):
     if r & rets:
         return Consumption("MATCH-ABSORB", "the Err edge can reach a normal return without producing an error",
                            sp_str(t.get("sp")), chain)
-    return Consumption("MATCH-ERR", "the Err edge always ends in an error return", sp_str(t.get("sp")), chain)
+    # does the Err edge return *the matched error itself* (`Err(e) => return Err(e.into())`, the spelled-out form of `?`)?
+    same = True
+    found = False
+    for x in sorted(r | fails):
+        if x not in body.reach_from([g.dst]):
+            continue
+        for st in body.blocks[x]["stmts"]:
+            if st["k"] == "assign" and st["p"]["l"] == 0 and "p" not in st["p"] and st["rv"]["k"] == "aggregate" and st["rv"].get("variant") == "Err":
+                found = True
+                pe = strip(tr.operand(st["rv"]["ops"][0]))
+                while pe[0] == "call" and pe[3] and re.search(r"convert::(Into::into|From::from)$", pe[1] or ""):
+                    pe = strip(pe[3][0])
+                ok_same = False
+                if pe[0] == "place" and pe[2] and pe[2][0][0] == "downcast" and pe[2][0][2] in ("Err", "Break") and len(pe[2]) == 2:
+                    base = strip(pe[1])
+                    src = strip(tr.local(local))
+                    ok_same = base == src
+                same = same and ok_same
+        tt = body.term(x)
+        if tt["k"] == "call" and tt["dest"]["l"] == 0 and is_callee(tt, r"FromResidual.*::from_residual$"):
+            found = True
+    detail = "the Err edge always ends in an error return"
+    if found and same:
+        detail = "SAME-ERROR: " + detail + " carrying the matched error itself"
+    return Consumption("MATCH-ERR", detail, sp_str(t.get("sp")), chain)
 
 
 def _failure_blocks(body):
@@ -269,6 +293,12 @@ ACCEPT = ("TRY", "RETURN", "MATCH-ERR", "PANIC", "NOISE")
 
 
 def run_e2d(prog, rep, fns, absorb_table, rule="E2.d", label=""):
+    # audit of the program as written: no helper inlining / loop desugaring (see facts.Program.raw)
+    with prog.raw():
+        return _run_e2d(prog, rep, fns, absorb_table, rule, label)
+
+
+def _run_e2d(prog, rep, fns, absorb_table, rule="E2.d", label=""):
     """absorb_table: {(fn-id-regex, callee-regex): reason} for intentional absorptions"""
     n = 0
     per_kind = {}
@@ -363,6 +393,12 @@ def canc_set(prog):
 
 
 def run_e2c(prog, rep):
+    # audit of the program as written: no helper inlining / loop desugaring (see facts.Program.raw)
+    with prog.raw():
+        return _run_e2c(prog, rep)
+
+
+def _run_e2c(prog, rep):
     """(i) check()'s result goes straight into `?`; (ii) results of may-cancel calls are only
     touched by ?, return and with_context; (iii) with_context returns Cancelled unchanged"""
     n_polls = 0
@@ -385,8 +421,9 @@ def run_e2c(prog, rep):
             cons = consume(body, uses, tr, t["dest"]["l"])
             kinds = {c.kind for c in cons}
             chains = {c.chain for c in cons}
-            if kinds <= {"TRY"} and chains <= {()}:
-                rep.ok("E2.c", key, sp_str(t["sp"]), "poll result flows directly into `?`")
+            spelled = all(c.kind == "TRY" or (c.kind == "MATCH-ERR" and c.detail.startswith("SAME-ERROR")) for c in cons if c.kind != "NOISE")
+            if (kinds <= {"TRY"} or spelled) and chains <= {()}:
+                rep.ok("E2.c", key, sp_str(t["sp"]), "poll result flows directly into `?` (or its spelled-out form returning the same error)")
             else:
                 rep.violation("E2.c", key, sp_str(t["sp"]), "the result of the cancellation poll is not propagated directly with `?`: %s" % cons)
     # (ii)
@@ -433,7 +470,7 @@ def run_e2c(prog, rep):
             for c in cons:
                 if c.kind == "NOISE":
                     continue
-                if c.kind not in ("TRY", "RETURN"):
+                if c.kind not in ("TRY", "RETURN") and not (c.kind == "MATCH-ERR" and c.detail.startswith("SAME-ERROR")):
                     bad.append("%s %s" % (c.kind, c.detail))
                 for a in c.chain:
                     if a != "with_context":
@@ -485,15 +522,16 @@ def run_e2c(prog, rep):
     # (iii)
     wc = [f for f in prog.fns.values() if f.name == "with_context" and f.trait == "tsg::execution::error::ResultWithExecutionError"]
     ok3 = False
+    from ..lib.cfgq import reach_const_aware
     for f in wc:
-        for c in prog.closures_of(f):
+        for c in [f] + prog.closures_of(f):
             body = c.body
             tr = Tracer(body)
             for b in sorted(body.reachable()):
                 for g in switch_edges(body, tr, b):
                     if g.variant == "Cancelled":
-                        # no InContext aggregate reachable from the Cancelled edge
-                        r = body.reach_from([g.dst])
+                        # no InContext aggregate reachable from the Cancelled edge (a classification kept in a bool is followed)
+                        r = reach_const_aware(body, g.dst)
                         wraps = False
                         for x in r:
                             for st in body.blocks[x]["stmts"]:
@@ -522,6 +560,12 @@ def _handler_calls(prog, body, pred):
 
 
 def run_e2p(prog, rep):
+    # audit of the program as written: no helper inlining / loop desugaring (see facts.Program.raw)
+    with prog.raw():
+        return _run_e2p(prog, rep)
+
+
+def _run_e2p(prog, rep):
     """poll placement obligations (C11)"""
     found = 0
     used_polls = set()
